@@ -826,6 +826,23 @@ def _referent(b, op):
     return None
 
 
+def _replaced_flag(b, m):
+    """The flag G when every definition of local `m` is either the constant `false` or the result of
+    `mem::replace(&mut G, true)` (the lowering of `cond && mem::replace(&mut G, true)`), else None."""
+    flags = set()
+    n_false = 0
+    for dbb, idx, kind, payload in b.whole_defs(m):
+        if kind == "assign" and payload["rv"]["k"] == "use" and payload["rv"]["op"].get("k") == "const" and payload["rv"]["op"].get("v") is False:
+            n_false += 1
+        elif kind == "call" and (fn_of(payload) or {}).get("def") == "std::mem::replace" and const_value(payload["args"][1]) is True:
+            flags.add(_referent(b, payload["args"][0]))
+        else:
+            return None
+    if len(flags) == 1 and None not in flags:
+        return flags.pop()
+    return None
+
+
 @rule("R14.3", 5, "standard input is read at most once: the only stdin() site is dominated by a set-once bool guard whose set edge exits 1", ["C14"])
 def r14_3(ctx):
     v = cliview.view(ctx.facts)
@@ -851,6 +868,11 @@ def r14_3(ctx):
         idiom = None
         if tr.origin and tr.origin[0] == "multi" and b.local_name(tr.origin[1]):
             g, idiom = tr.origin[1], "test-then-set"
+            # `let again = <cond> && mem::replace(&mut G, true);`: the tested local is only ever `false` or the
+            # previous value of G, which the same call sets
+            via = _replaced_flag(b, tr.origin[1])
+            if via is not None:
+                g, idiom = via, "mem::replace"
         elif tr.origin and tr.origin[0] == "call" and (fn_of(tr.origin[2]) or {}).get("def") == "std::mem::replace" and const_value(tr.origin[2]["args"][1]) is True:
             g = _referent(b, tr.origin[2]["args"][0])
             idiom = "mem::replace"
@@ -874,6 +896,10 @@ def r14_3(ctx):
         else:
             armed = sn not in ps.reach_from_edge(false_edge[0], false_edge[1], false_edge[2], removed_nodes=setters)
         ctx.ob("flag-set-before-read", armed, v.site(sn), f"`{gname}` is set before stdin() on every path" if armed else f"`{gname}` is not set before reading stdin")
+        # the same fact decided semantically: with the flag's value tracked along every path (constant stores and
+        # mem::replace on the flag are modelled), no path leads from a completed stdin() call to stdin() again
+        again = sn in v.reach_after(sn)
+        ctx.ob("stdin-not-reachable-again", not again, v.site(sn), "no feasible path reaches stdin() a second time" if not again else "a path from the first stdin() read reaches stdin() again")
         cl_ok = all(not sup.on_cycle(c) for c in clears) and len(clears) >= 1
         ctx.ob("flag-cleared-only-before-loop", cl_ok, site(b), f"`{gname} = false` only outside the input loop" if cl_ok else f"`{gname}` is reset inside the input loop")
     if not found:
